@@ -720,8 +720,8 @@ def manifest(pid, tier, replay):
                     what = "manifest is %s by the documented rules (%s) but ninja %s it (%s)" % ("valid" if exp["ok"] else "invalid", exp["err"] or "-", "accepted" if got["ok"] else "rejected", got.get("err", "").strip()[:80])
                 elif exp["ok"]:
                     stats["accepted"] += 1
-                    for k in ("edges", "defaults", "pools"):
-                        if exp[k] != got[k]:
+                    for k in ("edges", "defaults", "pools", "builds"):
+                        if k in exp and exp[k] != got.get(k):
                             d = ""
                             if k == "edges":
                                 for a, b in zip(exp[k], got[k]):
@@ -731,6 +731,8 @@ def manifest(pid, tier, replay):
                                             break
                                     if d:
                                         break
+                            if k == "builds":
+                                d = "a plain `ninja` should build %r, ninja builds %r" % (exp[k], got.get(k))
                             what = "graph differs from the documented meaning (%s) %s" % (k, d)
                             break
                 else:
